@@ -262,6 +262,19 @@ def undecorated(it):
     return c
 
 
+# Items that are no struct / enum / union: `syn::parse2::<DeriveInput>` fails inside `derive_where`; the macro must
+# report its (syn's) error and still emit the item, which the rest of the module uses.  Outside the Lean model (RawItem
+# is a DeriveInput); the expectation is C16's wording itself.
+RAW = [
+    '#[derive_where(Clone)] pub fn f() -> u8 { 1 } pub fn user() -> u8 { f() }',
+    '#[derive_where(Clone)] pub trait Tr { fn m(&self) -> u8 { 2 } } pub struct S; impl Tr for S {}',
+    '#[derive_where(Clone)] pub type Alias = u8; pub const X: Alias = 1;',
+    '#[derive_where(Clone)] pub const C: u8 = 1; pub const D: u8 = C;',
+    '#[derive_where(Clone; T)] pub static ST: u8 = 1; pub fn user() -> u8 { ST }',
+    '#[derive_where(Clone)] pub mod inner { pub struct S; } pub type U = inner::S;',
+]
+
+
 def module(idx, it):
     targs = bharness.type_args(it)
     return ('pub mod e%d {\n    use super::prelude::*;\n    use dw::derive_where;\n    %s\n    pub type Use = %s%s;\n}\n'
@@ -340,6 +353,12 @@ def run_(prop, cfg, seed, n=150, named=None):
         ranges.append((line, line + m.count('\n')))
         src.append(m.rstrip('\n'))
         line += m.count('\n')
+    raw_ranges = []
+    for i, r in enumerate(RAW):
+        m = 'pub mod raw%d {\n    use dw::derive_where;\n    %s\n}\n' % (i, r)
+        raw_ranges.append((line, line + m.count('\n')))
+        src.append(m.rstrip('\n'))
+        line += m.count('\n')
     src.append('fn main() {}')
     with open(os.path.join(d, 'src', 'main.rs'), 'w') as f:
         f.write('\n'.join(src) + '\n')
@@ -350,6 +369,7 @@ def run_(prop, cfg, seed, n=150, named=None):
     p = subprocess.run(args, cwd=d, env=env, stdout=subprocess.PIPE, stderr=subprocess.PIPE, text=True)
     per = {i: [] for i in range(len(named))}
     loose = []
+    raw_errs = {}
     for l in p.stdout.split('\n'):
         if not l.startswith('{'):
             continue
@@ -372,7 +392,12 @@ def run_(prop, cfg, seed, n=150, named=None):
             for i, (a, b) in enumerate(ranges):
                 if a <= ln < b:
                     hit = i
-        if hit is None:
+            for i, (a, b) in enumerate(raw_ranges):
+                if a <= ln < b:
+                    hit = -1 - i
+        if hit is not None and hit < 0:
+            raw_errs.setdefault(-1 - hit, []).append((code, text))
+        elif hit is None:
             loose.append((code, text))
         else:
             per[hit].append((code, text))
@@ -380,6 +405,20 @@ def run_(prop, cfg, seed, n=150, named=None):
         raise RuntimeError('diagnostics harness: errors outside any item module: %r %s' % (loose[:3], p.stderr[-600:]))
     rep = dict(config=cfg, items=len(named), predicted=dict(ok=0, err=0, panic=0, bad=0), stage1_errors=0, failures=[],
                streams={}, _named=named)
+    rep['non_derive_items'] = len(RAW)
+    for i, r in enumerate(RAW):
+        errs = raw_errs.get(i, [])
+        bad = None
+        if any('panicked' in t for _, t in errs):
+            bad = 'proc-macro panic'
+        elif not [1 for c, t in errs if not c]:
+            bad = 'no error of the macro is reported (the attribute is silently ignored)'
+        elif [1 for c, t in errs if c]:
+            bad = 'the item is no longer defined or other errors appear'
+        if bad:
+            rep['failures'].append(dict(name='non-derive-item', source=r, config=cfg, operation='compile (crate dependency renamed to `dw`)',
+                                        operands=[], expected=['one error of the macro (syn: not a struct, enum or union) and the item still defined'],
+                                        observed=[bad] + errs[:3], spec='err'))
     for i, ((stream, it), (kind, msg, stage)) in enumerate(zip(named, pred)):
         rep['predicted'][kind] += 1
         rep['streams'][stream] = rep['streams'].get(stream, 0) + 1
